@@ -62,6 +62,10 @@ pub const ELEMENTARY: &[Entry] = &[
     ),
     e("cart", GeoRad),
     e("cart ellps=intl", GeoRad),
+    e("cart ellps=6378137,298.257222101", GeoRad),
+    e("cart ellps=6378137,298.257223563", GeoRad),
+    e("tmerc lon_0=9 ellps=6378137,298.257222101", GeoRad),
+    e("tmerc lon_0=9 ellps=6378137,298.257223563", GeoRad),
     e("cart inv", Cart),
     e("curvature meridian", GeoRad),
     e("curvature prime", GeoRad),
@@ -288,6 +292,41 @@ pub fn gen_tuple(rng: &mut Rng, domain: Domain) -> [f64; 4] {
             0.0,
         ],
     };
+    // members on, or a hair's breadth off, the edges of the shipped grids and of the
+    // sub-grid of 5458_with_subgrid.gsb (54..58N 8..16E; child 55..56N 12..14E)
+    if matches!(domain, GeoRad | GeoDeg) && rng.chance(0.12) {
+        const EDGE_LAT: [f64; 5] = [54.0, 55.0, 55.5, 56.0, 58.0];
+        const EDGE_LON: [f64; 5] = [8.0, 12.0, 13.0, 14.0, 16.0];
+        // offsets in radians: exact, within the 1e-6 rad edge tolerance, just beyond it
+        const OFF: [f64; 9] = [0.0, 1e-7, -1e-7, 5e-7, -5e-7, 2e-6, -2e-6, 1e-5, -1e-5];
+        let mut lat = rng.uniform(54.0, 58.0);
+        let mut lon = rng.uniform(8.0, 16.0);
+        let (mut dlat, mut dlon) = (0.0, 0.0);
+        match rng.below(3) {
+            0 => {
+                lat = *rng.pick(&EDGE_LAT);
+                dlat = *rng.pick(&OFF);
+            }
+            1 => {
+                lon = *rng.pick(&EDGE_LON);
+                dlon = *rng.pick(&OFF);
+            }
+            _ => {
+                lat = *rng.pick(&EDGE_LAT);
+                lon = *rng.pick(&EDGE_LON);
+                dlat = *rng.pick(&OFF);
+                dlon = *rng.pick(&OFF);
+            }
+        }
+        if domain == GeoRad {
+            c[0] = lon.to_radians() + dlon;
+            c[1] = lat.to_radians() + dlat;
+        } else {
+            c[0] = lat + dlat.to_degrees();
+            c[1] = lon + dlon.to_degrees();
+        }
+        return c;
+    }
     // world-wide members now and then
     if rng.chance(0.08) {
         match domain {
